@@ -27,9 +27,11 @@ def shiftAndScale (vals : List (Option Rat)) (shift : Option Rat) (scale : Rat) 
   let s := shift.getD (nanmax vals)
   vals.map (Option.map (shiftScale1 s scale mode))
 
+/-- One value through `minmax_scale`.  A null range maps everything onto 0 (the code says so explicitly since the
+repair of F6; before, it divided by zero and produced NaN). -/
 def minmax1 (lo hi : Rat) (mode : ScaleMode) (v : Rat) : Rat :=
   match mode with
-  | .doIt => (v - lo) / (hi - lo)
+  | .doIt => if hi = lo then 0 else (v - lo) / (hi - lo)
   | .undo => v * (hi - lo) + lo
 
 /-- `scaler.minmax_scale(vals, min_val, max_val, mode)`. -/
